@@ -202,7 +202,13 @@ def clear_complete(repo: Repo) -> RuleRun:
                     tgt_attr = t.attr
         if tgt_attr is None:
             continue
-        filled_by_asm = any(tgt_attr in _mutated_attrs(repo, part_, mesh) for part_ in [asm] + [f_ for f_ in asm_closure if f_.cls is mesh and f_.name not in ("clear", "__init__", "assemble")])
+        parts_ = [asm] + [f_ for f_ in asm_closure if f_.cls is mesh and f_.name not in ("clear", "__init__", "assemble")]
+        filled_by_asm = any(tgt_attr in _mutated_attrs(repo, part_, mesh) for part_ in parts_) or any(
+            # ... or plainly assigned by assemble() (a state flag / a remembered option): resetting it is clear()'s job
+            isinstance(x_, (ast.Assign, ast.AugAssign, ast.AnnAssign)) and any(isinstance(t_, ast.Attribute) and attr_chain(t_.value) == "self" and t_.attr == tgt_attr for t_ in (x_.targets if isinstance(x_, ast.Assign) else [x_.target]))
+            for part_ in parts_
+            for x_ in ast.walk(part_.node)
+        )
         r.check(
             filled_by_asm,
             clear,
@@ -669,6 +675,59 @@ def backport_map(repo: Repo) -> RuleRun:
 
 backport_map.rule_id = "C12.BACKPORT-MAP"
 
+def backport_keeps_options(repo: Repo) -> RuleRun:
+    """'back-porting unmodified vertices yields the same written dictionary as a single assembly': backport() re-assembles the mesh
+    the way it was assembled - an assembly made with skip_edges=True is re-made with skip_edges=True (otherwise the edges that were
+    left out on purpose come back). Abstract run of assemble(skip_edges=True) on an empty depot followed by backport(): the
+    re-assembly is asked for with the same option."""
+    from ..peval import NO_MATCH, Evaluator, NotEvaluable, Obj, Raised, Sym, empty_defaults
+
+    r = RuleRun(PROP, "C12.BACKPORT-KEEPS-OPTIONS", floor=2, what="backport() re-assembles with the skip_edges option of the assembly it replaces")
+    mesh_cls = repo.cls("mesh.Mesh")
+    asm = repo.func("mesh.Mesh.assemble")
+    bp = repo.func("mesh.Mesh.backport")
+    for option in (True, False):
+        mesh = Obj("mesh", cls=mesh_cls)
+        empty_defaults(repo, mesh_cls, mesh)
+        mesh.set("depot", [])
+        mesh.set("deleted", set())
+        mesh.set("assembled", [])
+        for nm in ("vertex_list", "block_list", "edge_list", "patch_list", "face_list", "geometry_list"):
+            mesh.set(nm, Obj(nm, vertices=[], blocks=[]))
+        seen = []
+
+        def hook(ev, call: ast.Call, name, seen=seen):
+            ch = attr_chain(call.func) or ""
+            if ch == "self.assemble":
+                args = [ev.eval(a) for a in call.args]
+                kws = {k.arg: ev.eval(k.value) for k in call.keywords}
+                seen.append(args[0] if args else kws.get("skip_edges", False))
+                return None
+            if ch.startswith("self.") and ch.endswith("_list.clear"):
+                return None
+            return NO_MATCH
+
+        try:
+            Evaluator(repo=repo, module=asm.module, call_hook=hook).call_funcinfo(asm, [mesh, option])
+            mesh.set("is_assembled", True)
+            mesh.set("blocks", [])
+            Evaluator(repo=repo, module=bp.module, call_hook=hook).call_funcinfo(bp, [mesh])
+        except (Raised, NotEvaluable) as err:
+            raise AnalysisError(f"assemble(skip_edges={option}) + backport() not evaluable on the empty mesh model: {err}") from err
+        r.check(
+            len(seen) == 1 and bool(seen[0]) is option,
+            bp,
+            f"assembled with skip_edges={option}: re-assembled with skip_edges={seen}",
+            f"Mesh.backport after assemble(skip_edges={option}) asks for the re-assembly with skip_edges={seen}: the edges that were left out on purpose are back in the written dictionary although no vertex was moved",
+            bp.node,
+            key=f"skip_edges={option}",
+        )
+    return r
+
+
+backport_keeps_options.rule_id = "C12.BACKPORT-KEEPS-OPTIONS"
+
+
 def assemble_walk(repo: Repo) -> RuleRun:
     """Deleting an operation removes its block and nothing else (abstract run of Mesh.assemble)."""
     from . import c06
@@ -1022,4 +1081,4 @@ def writers_pure(repo: Repo, prop: str = PROP, rule: str = "C12.WRITERS-PURE") -
 writers_pure.rule_id = "C12.WRITERS-PURE"
 
 
-RULES = [clear_complete, grade_idempotent, lockstep_filter, backport_map, delete_skip, assemble_walk, backport_owns_points, no_class_state, no_stale_lazy_cache, empty_patch, neighbour_untouched, exact_moves, grade_replay, labels_private, geometry_redeclared, patch_state, writers_pure, assemble_atomic]
+RULES = [clear_complete, grade_idempotent, lockstep_filter, backport_map, delete_skip, assemble_walk, backport_owns_points, no_class_state, no_stale_lazy_cache, empty_patch, neighbour_untouched, exact_moves, grade_replay, labels_private, geometry_redeclared, patch_state, writers_pure, assemble_atomic, backport_keeps_options]
